@@ -3,6 +3,7 @@ package main
 import (
 	"encoding/json"
 	"fmt"
+	"go/types"
 	"os"
 	"path/filepath"
 	"sort"
@@ -199,6 +200,42 @@ func (r *runner) report(id string, hs []*harnessRun, t0 time.Time, noReplay bool
 	}
 	sort.Strings(outsideList)
 
+	// C20 speaks of every symbol reference in a query, i.e. of every AST node
+	// kind: list the node types of package ast (types with an Accept method)
+	// whose Accept was / was not executed by the query family
+	var nodeKindsVisited, nodeKindsNotVisited []string
+	if id == "C20" {
+		if ap := r.l.pkgs[repoMod+"/ast"]; ap != nil {
+			for name, m := range ap.Members {
+				t, ok := m.(*ssa.Type)
+				if !ok || strings.HasPrefix(name, "verif") || strings.HasPrefix(name, "v") && len(name) > 1 && name[1] >= 'A' && name[1] <= 'Z' {
+					continue // harness types
+				}
+				if _, isIface := t.Type().Underlying().(*types.Interface); isIface {
+					continue
+				}
+				sel := r.l.prog.MethodSets.MethodSet(types.NewPointer(t.Type())).Lookup(ap.Pkg, "Accept")
+				if sel == nil {
+					continue
+				}
+				fn := r.l.prog.MethodValue(sel)
+				if fn == nil {
+					continue
+				}
+				if r.covered[fn] > 0 {
+					nodeKindsVisited = append(nodeKindsVisited, name)
+				} else {
+					nodeKindsNotVisited = append(nodeKindsNotVisited, name)
+				}
+			}
+			sort.Strings(nodeKindsVisited)
+			sort.Strings(nodeKindsNotVisited)
+			if len(nodeKindsNotVisited) > 0 {
+				outsideList = append(outsideList, "AST node kinds whose Accept no query of the family reaches: "+strings.Join(nodeKindsNotVisited, ", "))
+			}
+		}
+	}
+
 	hsum := []interface{}{}
 	for _, h := range hs {
 		hsum = append(hsum, map[string]interface{}{
@@ -265,15 +302,16 @@ func (r *runner) report(id string, hs []*harnessRun, t0 time.Time, noReplay bool
 				"cross_check_queries":              crossAsked,
 				"cross_check_disagreements":        crossDisagree,
 			},
-			"solver":          "z3 4.8.12 (z3 -in, incremental, 60 s cap per query)",
-			"solver_time_s":   r.solverStats.time.Seconds(),
-			"load_s":          r.l.loadSecs,
-			"ssa_build_s":     r.l.ssaSecs,
-			"stubs":           stubList,
-			"outside_claim":   outsideList,
-			"inconclusive":    inconclusive,
-			"known_findings":  knownLines,
-			"encoding_source": "go/ssa built from /repo's working tree on this run (go/packages overlay adds harness files only)",
+			"solver":                 "z3 4.8.12 (z3 -in, incremental, 60 s cap per query)",
+			"solver_time_s":          r.solverStats.time.Seconds(),
+			"load_s":                 r.l.loadSecs,
+			"ssa_build_s":            r.l.ssaSecs,
+			"ast_node_kinds_visited": nodeKindsVisited,
+			"stubs":                  stubList,
+			"outside_claim":          outsideList,
+			"inconclusive":           inconclusive,
+			"known_findings":         knownLines,
+			"encoding_source":        "go/ssa built from /repo's working tree on this run (go/packages overlay adds harness files only)",
 		},
 		"assumptions": append([]string{
 			"bounded symbolic execution: sizes/lengths are bounded by the harness (see harness 'bounds' in DESIGN.md); nothing is claimed outside them",
